@@ -200,7 +200,9 @@ def install_proxy(e):
     # _is_address_in_network is a function of its arguments: tie its result to `ain`
     c_ain = e.contracts[U + "_is_address_in_network"]
     base = c_ain.ensures
-    c_ain.ensures = lambda c, old, a, res: z3.And(base(c, old, a, res), z(res, "bool") == ain(z(a["ip"]), z(a["net"])))
+    # (`ain` names the value the function returns for given arguments: a definition, used only where the contract is applied)
+    c_ain.ensures = lambda c, old, a, res: z3.And(base(c, old, a, res), z(res, "bool") == ain(z(a["ip"]), z(a["net"]))) \
+        if c.mode == "assume" else base(c, old, a, res)
     c_ain.ghost_entry = None
     # when its body is verified `ain` is still unconstrained for these arguments: define it by the result (a pure function)
     k = z3.Int("k")
